@@ -23,13 +23,13 @@ func ExtractTypeInfo(t types.Type) *TypeInfo {
 		return nil
 	}
 
-	// Remove pointer if present
-	if ptr, ok := t.(*types.Pointer); ok {
+	// Remove pointer if present (a type alias stands for the type it denotes)
+	if ptr, ok := types.Unalias(t).(*types.Pointer); ok {
 		t = ptr.Elem()
 	}
 
 	// Get named type
-	named, ok := t.(*types.Named)
+	named, ok := types.Unalias(t).(*types.Named)
 	if !ok {
 		return nil
 	}
@@ -53,13 +53,13 @@ func ExtractTypeName(t types.Type) string {
 		return ""
 	}
 
-	// Remove pointer if present
-	if ptr, ok := t.(*types.Pointer); ok {
+	// Remove pointer if present (a type alias stands for the type it denotes)
+	if ptr, ok := types.Unalias(t).(*types.Pointer); ok {
 		t = ptr.Elem()
 	}
 
 	// Get named type
-	named, ok := t.(*types.Named)
+	named, ok := types.Unalias(t).(*types.Named)
 	if !ok {
 		return ""
 	}
